@@ -1888,6 +1888,8 @@ def _read_reader_macro(ctx: ReaderContext) -> LispReaderForm:
 
         return _resolve_tagged_literal(ctx, s, v)
 
+    if char == "":
+        raise ctx.eof_error("Unexpected EOF in reader macro")
     raise ctx.syntax_error(f"Unexpected char '{char}' in reader macro")
 
 
